@@ -223,8 +223,23 @@ def fold(t, ctx, env=None, depth=0):
             return NpArray(list(v))
         if name in ("np.zeros", "np.ones") and len(args) == 1:
             n = fold(args[0], ctx, env, depth + 1)
+            if isinstance(n, (tuple, list)) and len(n) == 1:
+                n = n[0]
+            if isinstance(n, float) and n.is_integer():
+                n = int(n)
             if isinstance(n, int):
                 return NpArray([0 if name == "np.zeros" else 1] * n)
+        if name == "np.full" and len(args) == 2:
+            n = fold(args[0], ctx, env, depth + 1)
+            v = fold(args[1], ctx, env, depth + 1)
+            if isinstance(n, (tuple, list)) and len(n) == 1:
+                n = n[0]
+            if isinstance(n, float) and n.is_integer():
+                n = int(n)
+            if isinstance(v, float) and v.is_integer():
+                v = int(v)
+            if isinstance(n, int) and isinstance(v, (int, float)):
+                return NpArray([v] * n)
         raise NotConstant("call of %s" % name)
     if op == "comp":
         kind, elt, iters, conds, cid = t.a
